@@ -799,6 +799,7 @@ DEFUN size_t
 dt_strfdt(char *restrict buf, size_t bsz, const char *fmt, struct dt_dt_s that)
 {
 	struct strpdt_s d = {0};
+	struct dt_dt_s orig;
 	const char *fp;
 	char *bp;
 	dt_dtyp_t tgttyp;
@@ -918,6 +919,8 @@ dt_strfdt(char *restrict buf, size_t bsz, const char *fmt, struct dt_dt_s that)
 		}
 	}
 
+	/* business day specs (%db, %dB) need the bizda value itself */
+	orig = that;
 	if (!set_fmt) {
 		/* custom formats are calendar agnostic, evaluate the date
 		 * specs on the ymd view so that the output doesn't depend
@@ -934,6 +937,7 @@ dt_strfdt(char *restrict buf, size_t bsz, const char *fmt, struct dt_dt_s that)
 		case DT_YWD:
 		case DT_YD:
 		case DT_DAISY:
+		case DT_BIZDA:
 		case DT_JDN:
 		case DT_LDN:
 		case DT_MDN:
@@ -1025,7 +1029,10 @@ dt_strfdt(char *restrict buf, size_t bsz, const char *fmt, struct dt_dt_s that)
 			/* must be literal then */
 			*bp++ = *fp_sav;
 		} else if (LIKELY(!spec.rom)) {
-			bp += __strfdt_card(bp, eo - bp, spec, &d, that);
+			bp += __strfdt_card(
+				bp, eo - bp, spec, &d,
+				LIKELY(!spec.bizda || orig.d.typ != DT_BIZDA)
+				? that : orig);
 			if (spec.ord) {
 				bp += __ordtostr(bp, eo - bp);
 			} else if (spec.bizda) {
